@@ -18,7 +18,7 @@ RULE = ('Hypothesis: a Twisted ModbusClientProtocol on a StringTransport, TCP va
         'after connection loss every pending deferred has failed with ConnectionException and later requests fail at once; '
         'no exception escapes dataReceived. Sweep: 70000-request history (thorough: 140000) with one long-outstanding request '
         '(id-space wrap). Non-trivial: >=2 outstanding requests answered out of order, a coalesced read, or a loss with >=1 '
-        'pending; distinct by SHA-1.')
+        'pending; distinct by SHA-1. Further operations: a request object executed again, reconnect with a new protocol object after a loss (also in the middle of a reply), protocols built without a framer / by ModbusClientFactory; sweep with 40..300 (thorough 1200) requests outstanding at once.')
 ASSUMPTIONS = ['StringTransport stands for the reactor transport; an exception out of dataReceived would make the reactor drop the connection']
 BUDGET = {'quick': 4000, 'thorough': 12000}
 
